@@ -1,8 +1,8 @@
 #!/verif/.venv/bin/python
 # Replay of a solver counterexample against the unmodified code (no shims).
-# property=C03 kernel=step label=c03:no_delay_start
+# property=C03 kernel=estimate label=c03:not_before_phase_barrier
 import sys
 sys.path[:0] = ['/repo' + "/pulser-core", '/repo' + "/pulser-simulation", "/verif"]
 from symx.replay import replay
-sys.exit(replay(check='checks.c03', kernel='step', shape={'own': {'clock': 4, 'local': False, 'slots': [], 'mod': True, 'pj': 'custom', 'targets_a': ['q0'], 'targets_b': ['q1']}, 'op': ['add_pulse', 'no-delay', 'B'], 'maxseq': True, 'nbarriers': 1},
-                assignment={'max_sequence_duration': 6, 'own.min_duration': 2, 'own.tr': 1, 'own.pjt': 0, 'new.dur/k': 1, 'barrier0': 1, 'buf#1.start': 0, 'buf#1.end': 0, 'buf#2.start': 0, 'buf#2.end': 0}, label='c03:no_delay_start'))
+sys.exit(replay(check='checks.c03', kernel='estimate', shape={'program': 'dmm_after_shift', 'protocol': 'no-delay'},
+                assignment={'ph0': 0, 'd0/k': 2, 'phi1': 0, 'dn/k': 2}, label='c03:not_before_phase_barrier'))
